@@ -35,4 +35,17 @@ CLAIMED["C08"] = {"text": "The bytes written by Paragraph.WriteTo / Encoder are 
                   "design_ref": "3/C08", "note": _TB + " Values whose first line is empty but which have further lines are a formatting request of the multiline convention, not content (DESIGN 3/C08).",
                   "technique": "TLC judges written bytes with the TLA+ reference reader; write/read cycle traces validated"}
 
+CLAIMED["C13"] = {"text": "The ar format is specified in TLA+ (member model, RenderAr, header offsets). TLC renders every archive up to the bound and judges the real iterator's complete step trace (offsets via SectionReader.Outer, metadata, bytes, re-reads while and after iterating); the Ar.Next machine (Impl layer) is model-checked for exactness on clean archives. Large random binary members are covered by digest comparison.",
+                  "design_ref": "3/C13", "note": _TB,
+                  "technique": "TLA+ archive renderer + TLC model checking of the iterator machine; iteration traces validated by TLC"}
+CLAIMED["C15"] = {"text": "The same iterator machine is model-checked with a fault model (any header column of any member overwritten by hostile text, truncation at any offset) for safety, boundedness and termination; TLC generates those corruptions of spec-rendered archives and judges the real iterator's steps (run twice, budgeted, panic-guarded) against the safety conditions evaluated on the actual bytes; real .deb files with stored/gzip members are damaged (byte flips, truncation, header columns) and each loaded three times under a watchdog.",
+                  "design_ref": "3/C15", "note": _TB + " xz/lzma/bzip2/zstd decoders on hostile input are outside the claim (per the property).",
+                  "technique": "TLC model checking with fault actions; TLC-generated structured corruption replayed into the real reader; trace validation"}
+CLAIMED["C14"] = {"text": "Package shapes (members, order, names, encodings, control-tar layout, data files, debian-binary text) are enumerated by TLC; the harness builds each shape as a real .deb with real tar/compression/ar; TLC judges the loaded Control (typed fields and raw paragraph via the Deb822 reference reader), extensions, ar index, data tar listing, rejection rules and repeat-load determinism. The loader is also model-checked as a machine in which Go map iteration is nondeterministic: the outcome must be a function of the shape.",
+                  "design_ref": "3/C14", "note": _TB + " Compression/tar/ar encoders are ground truth.",
+                  "technique": "TLC-enumerated package shapes built into real .deb files; load traces validated by TLC; loader machine with map-order nondeterminism model-checked"}
+CLAIMED["C16"] = {"text": "Ideal-signature model (key, list of signed members) in TLA+; TLC enumerates roles x keyrings x signed-member lists x decoy members x tampered member, the harness signs with real OpenPGP keys and flips real bytes, each case loaded and checked repeatedly (map order). TLC demands: success only if the signature covers exactly the unique loaded binary/control/data members with a keyring key and nothing signed was altered; the positive path must succeed with the right signer. The CheckDebsig machine with its own nondeterministic member selection is model-checked against the loader's.",
+                  "design_ref": "3/C16", "note": _TB + " OpenPGP is ground truth (x/crypto).",
+                  "technique": "TLC model checking of loader+debsig machine with nondeterministic selection; fault enumeration judged by TLC against an ideal-signature spec"}
+
 NOT_APPLICABLE = {}
